@@ -86,7 +86,7 @@ theorem pre_sticky (w w' : World) (op : Op) (h : w.step op = .ok w') (hp : w'.pr
   simp only [Bool.and_eq_true] at this
   exact this.1.1
 
-/-- One operation preserves the invariant (all 27 operation kinds), for streams and
+/-- One operation preserves the invariant (all 30 operation kinds), for streams and
 placeholder objects alike. -/
 theorem inv_step (w w' : World) (op : Op) (hg : Good w) (h : w.step op = .ok w') : Good w' := by
   intro hp
@@ -198,27 +198,100 @@ theorem new_objects_are_placeholders (w w' : World) (op : Op) (hop : op.creates 
   have := (exec_wstepR h hop).real
   rw [this]; exact hn x hx
 
-/-- "Port lists of fixed size keep their size with vacated ports filled by placeholders", for
-every operation other than the two that create streams — item and slice assignment (also when
-they move a stream away to another unit), `pop`, `remove`, `replace`, `clear`, `empty`,
-`disconnect_*`, `unit.disconnect`, `take_place_of`, `replace_with`, `insert`, `reconnect`, pipe
-notation, ports: within the preconditions, afterwards every fixed-size list has its size, and
-every port of every list holds either an object that existed before the operation (of unchanged
-kind) or a placeholder.  So whatever sits in a port that a stream vacated is a placeholder. -/
+/-- Whether a port list of an existing unit is of fixed size, and that size, never change — under
+any operation, inside or outside the preconditions (only the constructor of a unit writes them, for
+its own two lists).  This is what makes the clause `fixed_size` of the invariant mean "keeps its size". -/
+theorem fixed_stable (w w' : World) (op : Op) (h : w.step op = .ok w') (k : Which) (u : Nat)
+    (hu : u < w.nU) :
+    (w'.side k).fixed u = (w.side k).fixed u ∧ (w'.side k).size u = (w.side k).size u :=
+  (exec_wstep h).ext.fx_old k u hu
+
+theorem fixed_stable_history (ops : List Op) (w : World) (k : Which) (u : Nat) (hu : u < w.nU) :
+    ((w.run ops).side k).fixed u = (w.side k).fixed u ∧ ((w.run ops).side k).size u = (w.side k).size u := by
+  induction ops generalizing w with
+  | nil => exact ⟨rfl, rfl⟩
+  | cons op ops ih =>
+    simp only [World.run]
+    split
+    · rename_i w' h
+      have hn : w.nU ≤ w'.nU := (exec_wstep h).ext.nU
+      have h1 := ih w' (Nat.lt_of_lt_of_le hu hn)
+      have h2 := fixed_stable w w' op h k u hu
+      exact ⟨h1.1.trans h2.1, h1.2.trans h2.2⟩
+    · exact ⟨rfl, rfl⟩
+
+/-- What every operation other than the two that create streams guarantees about the port lists,
+within the preconditions: (1) every fixed-size list has its declared size afterwards; (2) a fixed-size
+list of an existing unit has exactly as many ports as before (its `fixed`/`size` cannot change:
+`fixed_stable`); (3) every port of every list holds either an object that existed before the
+operation (of unchanged kind) or a placeholder created by it — no operation invents a stream.
+NOT claimed here: which old object may sit in which port; the exact occupant of a vacated port is
+stated per operation for `remove` (the code path of `disconnect_*` and of a redock's donor port:
+`vacated_port_filled_by_placeholder`), `seq[i] = None` (`set_none_fills_with_placeholder`) and
+`empty` (`empty_fills_with_placeholders`); for `pop` on a fixed-size list, slice shrinking and
+`unit.disconnect` there is no per-port theorem (they go through the same `replace`/`_set_streams`
+code; decided by correspondence + oracle). -/
 theorem vacated_ports_filled_by_placeholders (w w' : World) (op : Op) (hop : op.creates = false)
     (hg : Good w) (h : w.step op = .ok w') (hp : w'.pre = true) :
     (∀ k u, (w'.side k).fixed u = true → ((w'.side k).lst u).length = (w'.side k).size u) ∧
+    (∀ k u, u < w.nU → (w.side k).fixed u = true →
+      ((w'.side k).lst u).length = ((w.side k).lst u).length) ∧
     (∀ k u x, x ∈ (w'.side k).lst u →
       (x < w.nS ∧ w'.real x = w.real x) ∨ (w.nS ≤ x ∧ w'.real x = false)) := by
   have hI := (inv_step w w' op hg h hp).1
+  have hI0 := (hg (pre_sticky w w' op h hp)).1
   have hS := (hg (pre_sticky w w' op h hp)).2
-  refine ⟨fun k u hf => ?_, fun k u x _ => ?_⟩
-  · cases k
-    · exact hI.ins.fixed_size u hf
-    · exact hI.outs.fixed_size u hf
+  have fs : ∀ (v : World), Inv v → ∀ k u, (v.side k).fixed u = true →
+      ((v.side k).lst u).length = (v.side k).size u := by
+    intro v hv k u hf
+    cases k
+    · exact hv.ins.fixed_size u hf
+    · exact hv.outs.fixed_size u hf
+  refine ⟨fs w' hI, fun k u hu hf => ?_, fun k u x _ => ?_⟩
+  · have st := fixed_stable w w' op h k u hu
+    rw [fs w' hI k u (by rw [st.1]; exact hf), st.2, fs w hI0 k u hf]
   · by_cases hx : x < w.nS
     · exact Or.inl ⟨hx, kind_stable w w' op h x hx⟩
     · exact Or.inr ⟨by omega, new_objects_are_placeholders w w' op hop h hS.not_real x (by omega)⟩
+
+/-- `seq[i] = None` on an occupied port: afterwards port `i` holds a brand-new placeholder whose
+pointer names the unit, the former occupant is undocked, no other port of the list changes. -/
+theorem set_none_fills_with_placeholder (w w' : World) (k : Which) (u i : Nat)
+    (hg : Good w) (hp : w.pre = true) (hi : i < ((w.side k).lst u).length)
+    (h : w.step (.set k u i none) = .ok w') :
+    (w'.side k).lst u = ((w.side k).lst u).set i w.nS ∧ w'.real w.nS = false ∧
+      (w'.side k).loc w.nS = some u ∧ (w'.side k).loc (((w.side k).lst u)[i]) = none := by
+  have hsc : Sc w.nU (({ w with pre := w.pre && (Op.set k u i none).ids.all (· < w.nS) &&
+      (Op.set k u i none).units.all (· < w.nU) } : World).get k) :=
+    ((toGoodS (hg hp)).side k).sc.of_eq (by cases k <;> rfl) (by cases k <;> rfl)
+  simp only [World.step, World.exec, World.on] at h
+  obtain ⟨r, hr, h⟩ := bind_ok.mp h
+  cases h
+  have e1 : (({ w with pre := w.pre && (Op.set k u i none).ids.all (· < w.nS) &&
+      (Op.set k u i none).units.all (· < w.nU) } : World).get k).sd = w.side k := by cases k <;> rfl
+  have e2 : (({ w with pre := w.pre && (Op.set k u i none).ids.all (· < w.nS) &&
+      (Op.set k u i none).units.all (· < w.nU) } : World).get k).next = w.nS := by cases k <;> rfl
+  obtain ⟨h1, _, h3, h4⟩ := setNone_spec hsc (by rw [e1]; exact hi) hr
+  simp only [e1, e2] at h1 h3 h4
+  refine ⟨by rw [put_side_same]; exact h1, ?_, by rw [put_side_same]; exact h3,
+    by rw [put_side_same]; exact h4⟩
+  rw [put_real]; exact (toGoodS (hg hp)).nreal w.nS (Nat.le_refl _)
+
+/-- `seq.empty()` (and `seq.clear()` on a fixed-size list goes the same way): afterwards every port
+of the list holds a brand-new placeholder. -/
+theorem empty_fills_with_placeholders (w w' : World) (k : Which) (u : Nat)
+    (hg : Good w) (hp : w.pre = true) (h : w.step (.empty k u) = .ok w') :
+    ∀ x ∈ (w'.side k).lst u, w.nS ≤ x ∧ w'.real x = false := by
+  simp only [World.step, World.exec, World.on] at h
+  obtain ⟨r, hr, h⟩ := bind_ok.mp h
+  cases hr; cases h
+  intro x hx
+  rw [put_side_same] at hx
+  have e2 : (({ w with pre := w.pre && (Op.empty k u).ids.all (· < w.nS) &&
+      (Op.empty k u).units.all (· < w.nU) } : World).get k).next = w.nS := by cases k <;> rfl
+  have hge := refill_lst _ u _ x hx
+  rw [e2] at hge
+  exact ⟨hge, by rw [put_real]; exact (toGoodS (hg hp)).nreal x hge⟩
 
 /-- Non-vacuity: a concrete history exercising redocking across units, pop, slice
 assignment and piping stays within the preconditions (so the theorem above applies to it). -/
